@@ -432,7 +432,7 @@ def gen_case(rng, kind, eq=True):
         tags.append("t=T")
     if kind in ("timetrig", "mix"):
         for _ in range(rng.choice([1, 2])):
-            trig(pick())["time"] = rng.choice([0, 1, T - 1, T, T + 1, 3 * T] if eq else [T, T + 1, 3 * T, 5 * T])
+            trig(pick())["time"] = rng.choice([0, 1, T - 1, T, T + 1, 3 * T] if eq else [1, 3, T - 1, T, T + 1, 3 * T, 5 * T])
         if rng.random() < 0.4:
             trig(pick())["trace"] = True
     if kind in ("caller", "caller_time"):
@@ -530,7 +530,7 @@ KINDS = ["plain", "depth", "filter", "notrace", "fn", "fd", "time", "timetrig", 
 # ---------------------------------------------------------------- meta
 def common_meta(ctx):
     ctx.rule = ("a case = (call forest of 1-25 calls over 8 functions with durations drawn around the thresholds, "
-                "option set of one of %d kinds); the real replay/replay --no-merge/script/dump/dump --chrome/report/"
+                "option set of one of %d kinds; further lines: 2-3 task directories, record-vs-replay through libmcount, compiled programs); the real replay/replay --no-merge/script/dump/dump --chrome/report/"
                 "graph run on the synthetic directory of the forest; distinct = distinct (forest, options); "
                 "non-trivial = the option set hides at least one call" % len(KINDS))
     ctx.trusted = [
